@@ -15,6 +15,22 @@ CHECKS = {
         technique="TLA+ folds (declarative) vs scanning step machines model-checked by TLC; TLC-generated files (49/50/51-item window boundary, header variants) replayed into is_valid/has_line_info/summary; real answers on generated/corpus files validated by TLC against the folds over the recorded item stream",
         text="TLC checks the three code-shaped scanning machines against the declarative folds for every abstract item stream within the bound (window crossed exhaustively with Window=3), generates concrete files around the real 50-item window with last-header-wins and u32 min_api variants whose expected answers the folds assign, and validates the real answers for generated, mutated and corpus files against the folds applied to the item stream the library's own iterator yielded.",
         design="4 C19", note="Item abstraction recorded by the harness; parser behaviour itself is C05/C06. Trusted: TLC, Json module, harness (canary-checked)."),
+    "C01": dict(
+        technique="declarative TLA+ index/answer (Index.tla, Retrace.tla); TLC enumerates small mapping files (entry alphabet x sourceFile contexts, 5 byte-level variants) with spec-assigned answers replayed into mapper, mapper+params and cache; real sessions (generated + corpus files, query universe) validated by TLC trace spec that parses the bytes itself",
+        text="Exhaustive over single entries (8 ranges x 6 original ranges x 3 foreign classes x 3 file contexts) and bounded pairs, each in LF/CRLF/CR/noise/permuted variants, 9 lines incl. 2^32 and 2^64-1 extremes, file present/absent; plus seeded sessions over generated and corpus mappings where TLC re-derives every answer from the bytes.",
+        design="4 C01", note="Bounded alphabets; sampled sessions. Trusted: TLC, Json module, harness encoders (canary-checked)."),
+    "C02": dict(
+        technique="same TLA+ answer function as C01/C03/C04 used as the single reference for all three handles; TLC-generated files (blocks, sourceFile placement, adversarial names) replayed; real sessions validated by TLC",
+        text="Mapper (with and without parameter index) and cache are each compared, query for query, with Retrace!Answer over the declarative index of the same bytes; any disagreement between two handles is therefore a rejected case or trace event.",
+        design="4 C02", note="Stack-trace text/typed and signature agreement are exercised under C07/C08/C16. Bounded + sampled."),
+    "C03": dict(
+        technique="declarative by-params view (non-inlined, first occurrence per class) in TLA+; TLC enumerates 2..3 class blocks x <=2 methods and all record sequences <=2/3 over a 31-letter alphabet; replay into mapper+params and cache; trace validation of real sessions",
+        text="Exhaustive over small multi-class files (repeated class names, inline pairs, duplicates across blocks, with/without ranges) with every (class, method, params) triple of the universe; seeded sessions validated by TLC.",
+        design="4 C03", note="Bounded alphabets; trusted: TLC, Json module, harness (canary-checked)."),
+    "C04": dict(
+        technique="declarative class/method lookup + coherence invariant in TLA+ (checked by TLC on every generated file); adversarial class-name sequences and record sequences replayed; trace validation incl. files with up to 180 near-identical class names",
+        text="All sequences of <=3 (quick) / <=4 class blocks over 9 adversarial obfuscated names (prefixes, $ and . variants, non-ASCII, duplicates) with 19 probe names incl. sort neighbours; coherence between method lookup and line frames is an invariant of the model; real sessions with hundreds of similar names validated by TLC.",
+        design="4 C04", note="Bounded alphabets; trusted: TLC, Json module, harness (canary-checked)."),
 }
 
 NOT_YET = {}
